@@ -221,6 +221,7 @@ func c11Case(c *core.Ctx) *core.Result {
 	serial := 0
 	n := r.Range(3, tierN(c.Tier, 24, 60))
 	hfCalls, cycles := 0, 0
+	loopOpen := false
 	repeats := 0
 	for i := 0; i < n && len(res.Findings) == 0; i++ {
 		if len(others) > 0 && r.Chance(1, 3) {
@@ -328,7 +329,16 @@ func c11Case(c *core.Ctx) *core.Result {
 		case k < 82: // other content, other relationship-creating calls
 			log = append(log, "Content")
 			core.Catch(func() {
-				switch r.Intn(4) {
+				switch r.Intn(5) {
+				case 4:
+					// the opening or closing paragraph of a document-level loop: whatever header/footer or page-setting call comes between
+					// the two creates its section settings inside the loop's range
+					if loopOpen = !loopOpen; loopOpen {
+						d.AddParagraph("{{#each rows}}")
+						d.AddParagraph("row {{v}}")
+					} else {
+						d.AddParagraph("{{/each}}")
+					}
 				case 0:
 					d.AddParagraph("more body " + gen.Word(r, 1, 5))
 				case 1:
@@ -365,6 +375,7 @@ func c11Case(c *core.Ctx) *core.Result {
 				}
 				data := document.NewTemplateData()
 				data.SetVariable("x", "value")
+				data.SetList("rows", []interface{}{map[string]interface{}{"v": "1"}, map[string]interface{}{"v": "2"}})
 				if r.Bool() {
 					d2, err = eng.RenderTemplateToDocument("t", data)
 				} else {
